@@ -275,3 +275,68 @@ func VerifC18Document() {
 	_ = vars1
 	verif.Reach("C18/decided")
 }
+
+// VerifC18OneDocumentPerService: the plugin builds one generator (one document) per service;
+// every document is self-contained also when services share messages, in particular a
+// message whose schema registers further component schemas (flattened discriminated oneof
+// variants): every $ref of the second document resolves in the second document.
+func VerifC18OneDocumentPerService() {
+	text := c18Msg("Text", "acme.v1.Text")
+	c18Scalar(text, "body", protoreflect.StringKind, 1, false)
+	img := c18Msg("Image", "acme.v1.Image")
+	c18Scalar(img, "url", protoreflect.StringKind, 1, false)
+	ev := c18Msg("Event", "acme.v1.Event")
+	c18Scalar(ev, "id", protoreflect.StringKind, 1, false)
+	flatten := verif.Bool("oneof.flatten")
+	oo := &descriptorpb.OneofOptions{}
+	verif.SetExt(oo, http.E_OneofConfig, &http.OneofConfig{Discriminator: "kind", Flatten: flatten})
+	od := &verif.OneofDesc{OName: "content", OFullName: "acme.v1.Event.content", OOpts: oo}
+	oneof := &protogen.Oneof{Desc: od, GoName: "Content", Parent: ev}
+	ev.Oneofs = []*protogen.Oneof{oneof}
+	for i, t := range []*protogen.Message{text, img} {
+		name := []string{"text", "img"}[i]
+		d := &verif.FieldDesc{FName: name, FJSON: name, FKind: protoreflect.MessageKind, FNumber: int32(2 + i), FMsg: t.Desc, FOneof: od, FOpts: &descriptorpb.FieldOptions{}}
+		f := verif.AddField(ev, d, strings.ToUpper(name[:1])+name[1:])
+		f.Message, f.Oneof = t, oneof
+		oneof.Fields = append(oneof.Fields, f)
+	}
+	req := c18Msg("Req", "acme.v1.Req")
+	c18Scalar(req, "id", protoreflect.StringKind, 1, false)
+	mk := func(name string) *protogen.Service {
+		svc := verif.NewService("acme.v1", name, &descriptorpb.ServiceOptions{})
+		mo := &descriptorpb.MethodOptions{}
+		verif.SetExt(mo, http.E_Config, &http.HttpConfig{Path: "/" + strings.ToLower(name), Method: http.HttpMethod_HTTP_METHOD_POST})
+		verif.NewMethod(svc, "Get", "Get", req, ev, mo)
+		return svc
+	}
+	n := 1 + verif.Choice("services", 2)
+	for i := 0; i < n; i++ {
+		g := NewGenerator(FormatYAML)
+		svc := mk([]string{"EventService", "EventQueryService"}[i])
+		g.CollectReferencedMessages(svc)
+		g.ProcessService(svc)
+		var refs []string
+		for pair := g.Schemas().First(); pair != nil; pair = pair.Next() {
+			c18Refs(pair.Value(), 0, &refs)
+			if s := pair.Value().Schema(); !pair.Value().IsReference() && s != nil && s.Discriminator != nil && s.Discriminator.Mapping != nil {
+				for mp := s.Discriminator.Mapping.First(); mp != nil; mp = mp.Next() {
+					refs = append(refs, mp.Value())
+				}
+			}
+		}
+		dangling := ""
+		for _, r := range refs {
+			const pfx = "#/components/schemas/"
+			if !strings.HasPrefix(r, pfx) {
+				dangling = r
+				continue
+			}
+			if _, ok := g.Schemas().Get(r[len(pfx):]); !ok {
+				dangling = r
+			}
+		}
+		verif.Show("dangling", dangling)
+		verif.Assert("C18/per-service/every-ref-resolves-in-its-own-document", dangling == "")
+	}
+	verif.Reach("C18/per-service/decided")
+}
